@@ -131,7 +131,11 @@ type NatSock struct {
 	// DelayTimeout holds back a read-timeout error for this long (a slow reaper): it widens
 	// the window between "deadline passed" and "association removed".
 	DelayTimeout time.Duration
-	reg          *NatRegistry
+	// OnSetDeadline is called at the entry of every SetReadDeadline (before it takes effect) with
+	// the number of earlier calls: a scheduling point inside the server's write path.
+	OnSetDeadline func(call int, dl time.Time)
+	nSetDL        int
+	reg           *NatRegistry
 }
 
 func (s *NatSock) ev(e natEv) {
@@ -143,6 +147,14 @@ func (s *NatSock) ev(e natEv) {
 	s.mu.Unlock()
 }
 func (s *NatSock) SetReadDeadline(t time.Time) error {
+	s.mu.Lock()
+	call := s.nSetDL
+	s.nSetDL++
+	hook := s.OnSetDeadline
+	s.mu.Unlock()
+	if hook != nil {
+		hook(call, t)
+	}
 	s.ev(natEv{Kind: "setReadDeadline", DL: t})
 	return s.PacketConn.SetReadDeadline(t)
 }
